@@ -111,3 +111,61 @@ theorem decodePayloads_strip {tpl : Template} {ss ps : List Bytes} {vs : List Va
       simp only [List.filter, stripUnknown, filterKnown, hk', Bool.false_eq_true, if_false, ih hvs]
 
 end Ipfix
+
+namespace Ipfix
+open Outcome C03
+
+theorem isField_minLen {ie : IE} {s p : Bytes} (h : IsField ie s p) : ie.minLen ≤ s.length := by
+  unfold IsField at h
+  unfold IE.minLen
+  split at h
+  · rename_i hv
+    simp only [hv, if_true]
+    rcases h with ⟨l, rfl, _, _⟩ | ⟨hi, lo, rfl, _⟩ <;> simp
+  · rename_i hv
+    simp only [hv, if_false]
+    obtain ⟨rfl, hl⟩ := h
+    omega
+
+theorem isRecord_minLen {tpl : Template} {ss ps : List Bytes} (h : IsRecord tpl ss ps) :
+    minRecordLen tpl ≤ ss.flatten.length := by
+  induction h with
+  | nil => simp [minRecordLen]
+  | @cons ie t s p ss ps hf _ ih =>
+    have := isField_minLen hf
+    simp [minRecordLen] at ih ⊢
+    omega
+
+/-- completeness of the record loop: a body that IS complete records followed by padding shorter
+    than the shortest record, all of whose payloads decode, is decoded to exactly those records -/
+theorem decodeRecordsFuel_complete {tpl : Template} (hmin : 0 < minRecordLen tpl) {body : Bytes}
+    {raw : List (List Bytes)} {pad : Bytes} (hs : Slices tpl body raw pad) {vals : List (List Value)}
+    (hd : raw.map (decodePayloads .keep tpl) = vals.map Outcome.ok) (fuel : Nat) (hf : body.length < fuel) :
+    decodeRecordsFuel .keep tpl fuel body = .ok vals := by
+  induction hs generalizing vals fuel with
+  | done hlt =>
+    cases vals with
+    | nil =>
+      cases fuel with
+      | zero => omega
+      | succ f => simp [decodeRecordsFuel, hlt]
+    | cons _ _ => simp at hd
+  | @cons ss ps rest recs pad hrec _ ih =>
+    cases vals with
+    | nil => simp at hd
+    | cons v vs =>
+      simp at hd
+      obtain ⟨hv, hvs⟩ := hd
+      cases fuel with
+      | zero => omega
+      | succ f =>
+        have hlen := isRecord_minLen hrec
+        have hlapp : (ss.flatten ++ rest).length = ss.flatten.length + rest.length := List.length_append
+        have hnot : ¬ ((ss.flatten ++ rest).length < minRecordLen tpl) := by omega
+        unfold decodeRecordsFuel
+        rw [if_neg hnot, decodeRecord_complete rest hrec hv]
+        simp only [bind_ok]
+        rw [ih hvs f (by omega)]
+        rfl
+
+end Ipfix
